@@ -163,7 +163,7 @@ def classify(kind, canonical, exp, ok, out, base):
         return "ok", ""
     if canonical:
         return "failing", "canonical encoding of an in-type value was rejected"
-    if kind in ("call", "mem", "ret", "memnt"):
+    if kind in ("call", "mem", "ret", "memnt", "retd", "kw0", "kw1", "kw2"):
         return "corr", "model accepts this non-canonical input but the contract reverts"
     return "ok", ""   # constructor arguments: one-directional check only
 
@@ -216,7 +216,7 @@ def run(ctx):
         b = ctx.coq_build(["C05/Dec.v", "C05/DecProofs.v", "C05/ReadsInside.v", "C05/DecImpl.v", "C05/DecImplProofs.v",
                            "C05/PropsC05.v", "C05/Harness.v"])
     harness_ok = b["ok"] or "Harness" not in str(b.get("file", "")) and "Dec.v" not in str(b.get("file", ""))
-    pairs = make_pairs(ctx, 20 if quick else 90, 3)
+    pairs = make_pairs(ctx, 20 if quick else 90, 3 if quick else 4)
     types = [t for t, _ in pairs]
     total = part_needs_clamp(ctx, types + [t for t in directed_types() if t not in types])
     r = ctx.rng("corrupt")
@@ -225,7 +225,7 @@ def run(ctx):
     bases = A.coq_hex_batch([f"enc (TTuple [{A.coq_ty(t)}]) (VList [{A.coq_val(t, v)}])" for t, v in flat], "c05base")
     # ---- phase 2: expectations for the corruption stream
     sel_of = {}
-    exprs, corr, agree_exprs, nt_exprs = [], [], [], []
+    exprs, corr, agree_exprs, nt_exprs, kw_exprs, kw_corr, retd_exprs = [], [], [], [], [], [], []
 
     def used(kind, j):
         # (truncations/extensions come first in the corruption list: all of the first 24 go to every entry point)
@@ -246,6 +246,23 @@ def run(ctx):
         exprs.append(pre + (f"join (expect_len t [1;2;3;4] base {lst()})" if has_len else 'EmptyString'))
         exprs.append(pre + f"join (expect_mem t base {lst('mem')})")
         exprs.append(pre + f"join (expect_ret t base {lst('ret')})")
+        # keyword-argument entry points kw(x), kw(x,b), kw(x,b,c): prefix tuples, defaults 5 and 0x0102
+        kwc = [c for c in cs if c[0].startswith(("CT", "CX"))] + [c for c in cs if not c[0].startswith(("CT", "CX"))][:10]
+        kw_corr.append(kwc)
+        kcl = "[" + "; ".join(c for c, _ in kwc) + "]"
+        cvv = A.coq_val(t, v)
+        tfull = f"(TTuple [{A.coq_ty(t)}; TUInt 8; TBytes 4])"
+        for kk, (tp, vp, dfl) in enumerate([
+                (f"(TTuple [{A.coq_ty(t)}])", f"[{cvv}]", "[VInt 5; VBytes [1;2]]"),
+                (f"(TTuple [{A.coq_ty(t)}; TUInt 8])", f"[{cvv}; VInt 200]", "[VBytes [1;2]]"),
+                (tfull, f"[{cvv}; VInt 200; VBytes [170;187;204]]", "[]")]):
+            kw_exprs.append(f"let tp := {tp} in let base := enc tp (VList {vp}) in "
+                            f"join (expect_kw tp {tfull} {dfl} [1;2;3;4] base (enc {tfull} (VList ({vp} ++ {dfl}))) {kcl})")
+        lit = H.scalar_literal(t, None)
+        if lit is not None:
+            retd_exprs.append(pre + f"join (expect_retd t (VList [{A.coq_val(t, lit[1])}]) base {lst('ret')})")
+        else:
+            retd_exprs.append(None)
         if t[0] in A.SCALARS:
             # bare-word abi_decode(unwrap_tuple=False): the type is NOT wrapped; same corrupted payloads
             nt_exprs.append(f"let t := {A.coq_ty(t)} in let base := enc t {A.coq_val(t, v)} in "
@@ -257,6 +274,9 @@ def run(ctx):
     t0 = time.time()
     outs = A.coq_strings(exprs, "c05exp", imports=IMPORTS, shard=10, timeout=400)
     ctx.log(f"coq expectations: {len(exprs)} expressions in {time.time() - t0:.1f}s")
+    kw_outs = A.coq_strings(kw_exprs, "c05kw", imports=IMPORTS, shard=12, timeout=400)
+    rd_idx = [i for i, e in enumerate(retd_exprs) if e is not None]
+    rd_outs = dict(zip(rd_idx, A.coq_strings([retd_exprs[i] for i in rd_idx], "c05rd", imports=IMPORTS, shard=10))) if rd_idx else {}
     nt_idx = [i for i, e in enumerate(nt_exprs) if e is not None]
     nt_outs = dict(zip(nt_idx, A.coq_strings([nt_exprs[i] for i in nt_idx], "c05nt", imports=IMPORTS, shard=10))) if nt_idx else {}
     # implementation-level decoder models (DecImpl.v) on the same corrupted payloads
@@ -288,6 +308,7 @@ def run(ctx):
             e_mem = iter(outs[5 * k + 3].split(","))
             e_ret = iter(outs[5 * k + 4].split(","))
             e_nt = iter(nt_outs[k].split(",")) if k in nt_outs else None
+            e_rd = iter(rd_outs[k].split(",")) if k in rd_outs else None
             assert len(e_call) == len(cs), (len(e_call), len(cs))
             ins, ms = [], []
             for j, (cterm, fn) in enumerate(cs):
@@ -307,18 +328,35 @@ def run(ctx):
                 if used("ret", j):
                     ins.append(("ret", data))
                     ms.append(("ret", cterm, next(e_ret) + "|" + lenient, data))
+                    if e_rd is not None:
+                        ins.append(("retd", data))
+                        ms.append(("retd", cterm, next(e_rd), data))
                 # constructor arguments live at an unmodelled base inside the init code: a word >= 2^255 used as an
                 # offset wraps into init-code bytes there (into zeros in the base-0 model), so such inputs are skipped
                 if used("ctor", j) and not any(data[i] >= 0x80 for i in range(0, len(data), 32)):
                     ins.append(("ctor", data))
                     ms.append(("ctor", cterm, lenient, data))
+            # keyword-argument entry points
+            for kk, (tpl, vals_k) in enumerate([(("tuple", (t,)), [v]), (("tuple", (t, ("uint", 8))), [v, 200]),
+                                                (("tuple", (t, ("uint", 8), ("bytes", 4))), [v, 200, bytes([170, 187, 204])])]):
+                kbase = A.py_enc(tpl, vals_k, 0)
+                exps = kw_outs[3 * k + kk].split(",")
+                assert len(exps) == len(kw_corr[k]), (len(exps), len(kw_corr[k]))
+                dfl_full = [v, 200 if kk >= 1 else 5, bytes([170, 187, 204]) if kk == 2 else bytes([1, 2])]
+                kfull = A.py_enc(("tuple", (t, ("uint", 8), ("bytes", 4))), dfl_full, 0)
+                for (cterm, fn), e in zip(kw_corr[k], exps):
+                    data = fn(kbase)
+                    ins.append((f"kw{kk}", data))
+                    ms.append((f"kw{kk}", cterm, e, data, kfull))
             inputs.append(ins)
             metas.append(ms)
             bl.append(base)
             k += 1
         chosen = [cfgs[(ti * per + j) % len(cfgs)] for j in range(per)]
+        from vlib.c06_exits import selector, sig
+        kwsel = [selector(sig("kw", [t])), selector(sig("kw", [t, ("uint", 8)])), selector(sig("kw", [t, ("uint", 8), ("bytes", 4)]))]
         for cfg in chosen:
-            jobs.append((src, cfg, bl, inputs))
+            jobs.append((src, cfg, bl, inputs, kwsel))
             jm.append((t, vals, src, cfg, metas, bl))
     t0 = time.time()
     with ProcessPoolExecutor(max_workers=4) as ex:
@@ -337,9 +375,11 @@ def run(ctx):
                           {"type": A.eth_ty(t), "config": cfg.name, "error": res["error"], "source": src})
             continue
         for vi, (ms, obs) in enumerate(zip(metas, res["obs"])):
-            for (kind, cterm, exp, data), (ok, out) in zip(ms, obs):
+            for mrec, (ok, out) in zip(ms, obs):
+                kind, cterm, exp, data = mrec[:4]
+                base_for = mrec[4] if len(mrec) > 4 else bl[vi]
                 n += 1
-                stats[kind] += 1
+                stats[kind] = stats.get(kind, 0) + 1
                 canonical = cterm == "CX []"
                 if ok is True:
                     stats["accepted"] += 1
@@ -352,18 +392,21 @@ def run(ctx):
                         ctx.corr.setdefault("ctor_reject_samples", [])
                         if len(ctx.corr["ctor_reject_samples"]) < 12:
                             ctx.corr["ctor_reject_samples"].append([A.eth_ty(t), cterm, cfg.name])
-                verdict, text = classify(kind + ("+ext" if cterm.startswith("CX") else ""), canonical, exp, ok, out, bl[vi])
+                verdict, text = classify(kind + ("+ext" if cterm.startswith("CX") else ""), canonical, exp, ok, out, base_for)
                 if verdict == "ok":
                     continue
                 nfail += 1
                 if nfail > 6:
                     continue
                 how = {"call": "call echo(x) with calldata = selector ++ input", "len": "call ln(x) with calldata = selector ++ input", "mem": "call dec(b) with b = input (abi_decode)", "memnt": "call dec_nt(b) with b = input (abi_decode, unwrap_tuple=False)",
+                       "retd": "viaret_d(a): callee returns input; default_return_value used when returndata is empty",
+                       "kw0": "call kw(x) entry point with selector ++ input", "kw1": "call kw(x,b) entry point with selector ++ input",
+                       "kw2": "call kw(x,b,c) entry point with selector ++ input",
                        "ctor": "deploy initcode ++ input, then call get()", "ret": "viaret(a): callee a returns input as returndata"}[kind]
                 detail = {"source": src, "config": cfg.name, "entry": kind, "how": how, "type": A.eth_ty(t),
                           "value": repr(vals[vi]), "corruption": cterm, "input_hex": data.hex(),
                           "model": exp[:300], "observed_ok": ok, "observed_out": out.hex() if isinstance(out, bytes) else out,
-                          "canonical_base": bl[vi].hex()}
+                          "canonical_base": base_for.hex()}
                 ctx.violation("failing-input" if verdict == "failing" else "correspondence-broken", f"{kind}: {text}", detail)
     found = any(v["kind"] == "failing-input" for v in ctx.violations)
     from vlib import c06_pins
